@@ -1187,6 +1187,64 @@ static void definitionCases(vh::Rng& rng) {
   }
 }
 
+// lazy sets beyond the element cache (CachedSD keeps 100 elements): products / power sets with more than 100
+// members, bound to a NAME (global term or bound variable) and enumerated by two nested iterations at once -
+// the outer iteration holds a reference to an element while the inner one walks the same set past its cache
+// (found missing by seeded change C01-3: one overflow slot per set instead of one per iterator)
+static void lazyCases(vh::Rng& rng) {
+  Ctx cx;
+  emit("c01 reset", "ok");
+  const int n1 = rng.range(11, 12);
+  cx.n1 = n1; cx.n2 = 7; cx.ints = { 1, 2, 3 };
+  auto base = [&](const std::string& n, int card, TypeTraits tr) {
+    cx.env.data[n].type = Typification(n).Bool(); cx.env.data[n].traits = tr;
+    std::vector<int> v; for (int i = 1; i <= card; ++i) v.push_back(i);
+    bindData(cx, n, setOfInts(v));
+  };
+  base("X1", n1, TraitsNominal); base("X2", 7, TraitsNominal); base("C1", 3, TraitsIntegral);
+  // D1 = X1×X1 (121 / 144 pairs), D2 = ℬ(X2) (128 subsets): the values are the LAZY sets the evaluator returns
+  auto term = [&](const std::string& n, const std::string& rhs) {
+    const std::string text = n + ":==" + rhs;
+    if (!defineGlobal(cx, n, text, false)) { stats.add("lazy.term-rejected"); return false; }
+    Interpreter it(cx.env, cx.env.GetAST(), cx.env.GetDataContext());
+    const auto v = it.Evaluate(text, Syntax::MATH);
+    if (!v.has_value() || !std::holds_alternative<StructuredData>(*v)) { stats.add("lazy.term-without-value"); return false; }
+    bindData(cx, n, std::get<StructuredData>(*v));
+    return true;
+  };
+  if (!term("D1", "X1\xC3\x97X1") || !term("D2", "\xE2\x84\xAC(X2)")) return;
+  auto pr = [&](int i, EP e) { return mkIdx(T::SMALLPR, { i }, { std::move(e) }); };
+  auto same2 = [&](T q, const std::string& set) {                       // Q b∈set (a=b)
+    return mk(q, { L("b"), G(set), mk(T::EQUAL, { L("a"), L("b") }) });
+  };
+  for (const std::string set : { "D1", "D2" }) {
+    // D{a∈S | ∃b∈S (a=b)} = S ;  D{a∈S | ∀b∈S (a=b ∨ a≠b)} = S
+    runCase(cx, mk(T::NT_DECLARATIVE_EXPR, { L("a"), G(set), same2(T::EXISTS, set) }), "lazy.builder-exists", true);
+    runCase(cx, mk(T::NT_DECLARATIVE_EXPR, { L("a"), G(set),
+      mk(T::FORALL, { L("b"), G(set), mk(T::OR, { mk(T::EQUAL, { L("a"), L("b") }), mk(T::NOTEQUAL, { L("a"), L("b") }) }) }) }), "lazy.builder-forall", false);
+    runCase(cx, mk(T::FORALL, { L("a"), G(set), same2(T::EXISTS, set) }), "lazy.forall-exists", false);
+    runCase(cx, mk(T::CARD, { mk(T::NT_DECLARATIVE_EXPR, { L("a"), G(set), same2(T::EXISTS, set) }) }), "lazy.card-builder", false);
+    // the set held by a bound variable: ∀s∈{S} (D{a∈s | ∃b∈s (a=b)} = s)
+    runCase(cx, mk(T::FORALL, { L("s"), mk(T::NT_ENUMERATION, { G(set) }),
+      mk(T::EQUAL, { mk(T::NT_DECLARATIVE_EXPR, { L("a"), L("s"), mk(T::EXISTS, { L("b"), L("s"), mk(T::EQUAL, { L("a"), L("b") }) }) }), L("s") }) }), "lazy.bound-variable", false);
+    // imperative: I{a | a:∈S; b:∈S; a=b} = S  and the inner walk stopping early: I{b | a:∈S; b:∈S; b=a}
+    runCase(cx, mk(T::NT_IMPERATIVE_EXPR, { L("a"), mk(T::ITERATE, { L("a"), G(set) }), mk(T::ITERATE, { L("b"), G(set) }), mk(T::EQUAL, { L("a"), L("b") }) }), "lazy.imperative", false);
+    // set operations with the same lazy set on both sides
+    runCase(cx, mk(T::SET_MINUS, { G(set), mk(T::NT_DECLARATIVE_EXPR, { L("a"), G(set), mk(T::NOT, { same2(T::EXISTS, set) }) }) }), "lazy.minus-builder", false);
+  }
+  // the diagonal and the transposition of the product: membership of a constructed pair walks the set again
+  runCase(cx, mk(T::NT_DECLARATIVE_EXPR, { L("a"), G("D1"), mk(T::EXISTS, { L("b"), G("D1"),
+    mk(T::AND, { mk(T::EQUAL, { pr(1, L("a")), pr(2, L("b")) }), mk(T::EQUAL, { pr(2, L("a")), pr(1, L("b")) }) }) }) }), "lazy.transpose", true);
+  runCase(cx, mk(T::CARD, { mk(T::NT_DECLARATIVE_EXPR, { L("a"), G("D1"), mk(T::EXISTS, { L("b"), G("D1"),
+    mk(T::AND, { mk(T::EQUAL, { L("a"), L("b") }), mk(T::EQUAL, { pr(1, L("b")), pr(2, L("b")) }) }) }) }) }), "lazy.diagonal", false);
+  runCase(cx, mk(T::NT_DECLARATIVE_EXPR, { mk(T::NT_TUPLE_DECL, { L("x"), L("y") }), G("D1"),
+    mk(T::IN, { mk(T::NT_TUPLE, { L("y"), L("x") }), mk(T::NT_DECLARATIVE_EXPR, { L("b"), G("D1"), mk(T::NOTEQUAL, { pr(1, L("b")), pr(2, L("b")) }) }) }) }), "lazy.pattern-member", false);
+  // unnamed lazy operands written twice, and red over a lazy power set
+  auto x1x1 = [&] { return mk(T::DECART, { G("X1"), G("X1") }); };
+  runCase(cx, mk(T::NT_DECLARATIVE_EXPR, { L("a"), x1x1(), mk(T::EXISTS, { L("b"), x1x1(), mk(T::EQUAL, { L("a"), L("b") }) }) }), "lazy.unnamed", false);
+  runCase(cx, mk(T::REDUCE, { mk(T::NT_DECLARATIVE_EXPR, { L("a"), G("D2"), mk(T::EXISTS, { L("b"), G("D2"), mk(T::SUBSET, { L("a"), L("b") }) }) }) }), "lazy.reduce", false);
+}
+
 // documented resource limits (not defects): every ValueEID the evaluator can raise is exercised
 static void limitCases() {
   Ctx cx;
@@ -1237,6 +1295,7 @@ int main(int argc, char** argv) {
 
   corpusCases(rng);
   limitCases();
+  lazyCases(rng);
   definitionCases(rng);
 
   const int contexts = deep ? 160 : 45;
